@@ -19,6 +19,36 @@ from pathlib import Path
 from pytypes import BOOL, NONE, Q, STR, UNIT, Z, Dict, List, Nom, Opt, SetT, Tup, Ty, g_eqb, g_type, tuple_proj  # noqa: F401
 
 
+def rebound_ids(fnode, name):
+    """ids of the nodes inside the BODY of a `for` statement of `fnode` whose target binds `name`, or inside a comprehension that
+    binds `name`: there the name denotes the loop's own variable, whatever was assigned to it before (additive relaxation of the
+    fragment temp check: a loop variable re-used by a later loop)."""
+    out = set()
+    for n in ast.walk(fnode):
+        if isinstance(n, ast.For) and any(isinstance(t, ast.Name) and t.id == name for t in ast.walk(n.target)):
+            for st in n.body:
+                out |= {id(x) for x in ast.walk(st)}
+        if isinstance(n, (ast.ListComp, ast.SetComp, ast.GeneratorExp, ast.DictComp)) and any(
+                isinstance(t, ast.Name) and t.id == name for g in n.generators for t in ast.walk(g.target)):
+            out |= {id(x) for x in ast.walk(n)}
+    return out
+
+
+def escaping_jump(st):
+    """does `st` contain a return / yield, or a break / continue that is NOT enclosed in a loop inside `st` itself?"""
+    def go(n, depth):
+        if isinstance(n, (ast.Return, ast.Yield, ast.YieldFrom)):
+            return True
+        if isinstance(n, (ast.Break, ast.Continue)) and depth == 0:
+            return True
+        d = depth + 1 if isinstance(n, (ast.For, ast.While)) else depth
+        if isinstance(n, (ast.For, ast.While)):
+            return any(go(c, d) for c in n.body) or any(go(c, depth) for c in n.orelse)
+        return any(go(c, d) for c in ast.iter_child_nodes(n))
+    return go(st, 0)
+
+
+
 class Untranslatable(Exception):
     def __init__(self, node, reason):
         self.node, self.reason = node, reason
@@ -2574,7 +2604,7 @@ class ModuleTranslator:
             if fr.get("count") is not None and len(stmts) == fr["count"]:
                 closed = True
                 break
-            if any(isinstance(n, (ast.Break, ast.Continue, ast.Return, ast.Yield, ast.YieldFrom)) for n in ast.walk(st)):
+            if escaping_jump(st):
                 closed = fr.get("count") is None
                 break
             stmts.append(st)
@@ -2585,8 +2615,9 @@ class ModuleTranslator:
         for n in assigned_names(stmts):
             if n not in outputs and n not in temps:
                 raise Untranslatable(stmts[0], f"fragment of {fs['py']} assigns {n!r}, which is neither an output nor a declared temp")
+        rebound = {t_: rebound_ids(fnode, t_) for t_ in temps}
         for n in ast.walk(fnode):
-            if isinstance(n, ast.Name) and n.id in temps and isinstance(n.ctx, ast.Load) and id(n) not in inside:
+            if isinstance(n, ast.Name) and n.id in temps and isinstance(n.ctx, ast.Load) and id(n) not in inside and id(n) not in rebound[n.id]:
                 raise Untranslatable(n, f"fragment of {fs['py']}: temp {n.id!r} is read outside the fragment")
         last = stmts[-1]
         names = [ast.copy_location(ast.Name(o, ast.Load()), last) for o in outputs]
